@@ -569,3 +569,196 @@ class _Go(_Base):
 
 def lex_go(text: str) -> LexResult:
     return _Go(text).run()
+
+
+# ---------------------------------------------------------------------------
+# TypeScript / Java / C++ (token streams for the declaration scanners of C21 only;
+# well-formedness of these languages is decided by node, javac and g++)
+# ---------------------------------------------------------------------------
+
+class _CLike(_Base):
+    """Lenient lexer for C-family sources: comments, quoted literals, brackets."""
+
+    def __init__(self, text: str, templates: bool, text_blocks: bool, raw_strings: bool) -> None:
+        super().__init__(text)
+        self.templates = templates
+        self.text_blocks = text_blocks
+        self.raw_strings = raw_strings
+
+    def run(self, until_brace: bool = False) -> LexResult:
+        s = self.s
+        base_depth = len(self.stack)
+        at_line_start = True
+        while self.i < self.n:
+            ch = s[self.i]
+            if ch == "\n":
+                self.line += 1
+                self.i += 1
+                at_line_start = True
+                continue
+            if ch in " \t\r\f\v\ufeff\xa0":
+                self.i += 1
+                continue
+            if ch == "#" and at_line_start and not self.templates:
+                # preprocessor directive (with backslash continuations)
+                start, line = self.i, self.line
+                while self.i < self.n:
+                    j = s.find("\n", self.i)
+                    if j < 0:
+                        self.i = self.n
+                        break
+                    if s[j - 1] == "\\":
+                        self.line += 1
+                        self.i = j + 1
+                        continue
+                    self.i = j
+                    break
+                self.emit("directive", start, line)
+                continue
+            at_line_start = False
+            nxt = self.peek(1)
+            if ch == "/" and nxt == "/":
+                self.line_comment()
+                continue
+            if ch == "/" and nxt == "*":
+                self.block_comment()
+                continue
+            if ch == "/" and self.templates and self.regex_allowed():
+                self.regex_literal()
+                continue
+            if ch == '"' and self.text_blocks and s.startswith('"""', self.i):
+                start, line = self.i, self.line
+                j = s.find('"""', self.i + 3)
+                j = self.n if j < 0 else j + 3
+                self.line += s.count("\n", self.i, j)
+                self.i = j
+                self.emit("string", start, line)
+                continue
+            if ch == "R" and nxt == '"' and self.raw_strings:
+                start, line = self.i, self.line
+                k = s.find("(", self.i + 2)
+                if k > 0 and k - self.i <= 18:
+                    closing = ")" + s[self.i + 2:k] + '"'
+                    j = s.find(closing, k)
+                    j = self.n if j < 0 else j + len(closing)
+                    self.line += s.count("\n", self.i, j)
+                    self.i = j
+                    self.emit("string", start, line)
+                    continue
+            if ch in "\"'":
+                self.quoted(ch)
+                continue
+            if ch == "`" and self.templates:
+                self.template()
+                continue
+            if ch in OPEN:
+                self.bracket(ch)
+                continue
+            if ch in CLOSE:
+                if until_brace and ch == "}" and len(self.stack) == base_depth:
+                    return LexResult(self.tokens, self.errors)
+                self.bracket(ch)
+                continue
+            if ch.isdigit():
+                self.number()
+                continue
+            if _is_ident_start(ch) or ch == "$" or (ch == "@" and _is_ident_start(nxt)):
+                start, line = self.i, self.line
+                self.i += 1
+                while self.i < self.n and (_is_ident_part(s[self.i]) or s[self.i] == "$"):
+                    self.i += 1
+                self.emit("ident", start, line)
+                continue
+            start, line = self.i, self.line
+            self.i += 1
+            self.emit("punct", start, line)
+        return self.finish() if not until_brace else LexResult(self.tokens, self.errors)
+
+    def regex_allowed(self) -> bool:
+        """ECMAScript: a slash starts a regular expression where no operand precedes it."""
+        for token in reversed(self.tokens):
+            if token.kind == "comment":
+                continue
+            if token.kind in ("number", "string"):
+                return False
+            if token.kind == "ident":
+                return token.text in ("return", "typeof", "case", "in", "of", "delete", "void", "throw", "new")
+            return token.text not in (")", "]", "}")
+        return True
+
+    def regex_literal(self) -> None:
+        start, line = self.i, self.line
+        self.i += 1
+        in_class = False
+        while self.i < self.n:
+            ch = self.s[self.i]
+            if ch == "\\":
+                self.i += 2
+                continue
+            if ch == "\n":
+                self.err("newline-in-literal", self.s[start:start + 40], line)
+                break
+            self.i += 1
+            if ch == "[":
+                in_class = True
+            elif ch == "]":
+                in_class = False
+            elif ch == "/" and not in_class:
+                break
+        while self.i < self.n and self.s[self.i].isalpha():
+            self.i += 1
+        self.emit("string", start, line)
+
+    def quoted(self, quote: str) -> None:
+        start, line = self.i, self.line
+        self.i += 1
+        while self.i < self.n:
+            ch = self.s[self.i]
+            if ch == "\\":
+                self.i += 2
+                continue
+            if ch == "\n":
+                self.err("newline-in-literal", self.s[start:start + 40], line)
+                break
+            self.i += 1
+            if ch == quote:
+                break
+        self.emit("string", start, line)
+
+    def template(self) -> None:
+        start, line = self.i, self.line
+        self.i += 1
+        while self.i < self.n:
+            ch = self.s[self.i]
+            if ch == "\\":
+                self.i += 2
+                continue
+            if ch == "\n":
+                self.line += 1
+            if ch == "`":
+                self.i += 1
+                break
+            if ch == "$" and self.peek(1) == "{":
+                self.i += 2
+                sub = _CLike(self.s, self.templates, self.text_blocks, self.raw_strings)
+                sub.i, sub.line = self.i, self.line
+                sub.run(until_brace=True)
+                self.errors.extend(sub.errors)
+                self.i, self.line = sub.i, sub.line
+                if self.peek() == "}":
+                    self.i += 1
+                continue
+            self.i += 1
+        self.tokens.append(Token("string", self.s[start:self.i], line, len(self.stack)))
+
+
+def lex_typescript(text: str) -> LexResult:
+    return _CLike(text, templates=True, text_blocks=False, raw_strings=False).run()
+
+
+def lex_java(text: str) -> LexResult:
+    return _CLike(text, templates=False, text_blocks=True, raw_strings=False).run()
+
+
+def lex_cpp(text: str) -> LexResult:
+    return _CLike(text, templates=False, text_blocks=False, raw_strings=True).run()
